@@ -956,14 +956,18 @@ pub async fn drive(case: &Case) -> Outcome {
     }
     let g = net.inner.lock().unwrap();
     // C15 "sending resumes as soon as ... the address is validated": after a NAT rebinding whose new address the server
-    // has validated (it processed a PATH_RESPONSE), the transfer must complete — a path that stays throttled to three
-    // times the trickle of acknowledgements it receives never does. Not judged when the run ends in congestion collapse
-    // (known finding of C02), on the slowest link, or when faults were still being injected after the validation.
+    // has validated (it processed a PATH_RESPONSE) the server still has data to send (one of its writers is pending at
+    // the cap) and yet everything it ever sent to the new address stays within three times what it received from it:
+    // the path is still throttled although validated. (A validated path is unlimited: the 60 kB the server has to send
+    // dwarf three times the acknowledgements it receives.)
     if let (Some(_), Some(v_at)) = (g.nat_real, g.alt_validated_at) {
-        // (on the slowest link drawn, 20 kB/s, the known congestion-collapse pathologies of C02/C13 decide the outcome)
-        let slow_link = case.net.bandwidth > 0 && case.net.bandwidth < 100;
-        if (!completed || !pending.is_empty()) && !collapse && !slow_link && failed.is_empty() && g.last_fault_at_ms <= v_at + 5_000 {
-            out.violate("resume", "after-path-validation", format!("the server validated the client's new address at {v_at} ms, yet at {completed_at} ms still pending: {pending:?}"), completed_at);
+        let server_writer_pending = pending.iter().any(|p| p.starts_with("s.w"));
+        let (sent, rcvd) = g.ledger.get(&(net.server_addr, crate::net::nat_alt())).map(|l| (l.sent, l.rcvd)).unwrap_or((0, 0));
+        // (only when the client has sent a trickle since: otherwise three times that is no constraint at all)
+        if server_writer_pending && rcvd < 20_000 && sent <= 3 * rcvd + 1200 {
+            out.violate("resume", "after-path-validation:still-capped", format!("the server validated the client's new address at {v_at} ms; at {completed_at} ms its writers {:?} are still pending and it has sent {sent} bytes there after receiving {rcvd} (3x = {})", pending.iter().filter(|p| p.starts_with("s.w")).collect::<Vec<_>>(), 3 * rcvd), completed_at);
+        } else if !pending.is_empty() {
+            out.stats.bump("probe.stalled_after_rebinding_not_judged");
         }
     }
     out.stats.add("datagrams_c2s", g.ordinals[0] as u64);
